@@ -129,6 +129,7 @@ class Recorder:
         self.schema = None     # list of (name, datatype, nullable)
         self.batches = []      # list of (schema, columns) written
         self.finished = False
+        self.flush_ok = None   # result of the final flush / finish / close (None = never called)
 
 
 def install(eng, rec_box):
@@ -240,8 +241,11 @@ def install(eng, rec_box):
     ov(r"^csv::Writer::<.*>::write_record::<|^Writer::<.*>::write_record::<", m_write_record)
 
     def m_flush(e, callee, args):
+        # the last write of a small file happens here: it may fail (device full, quota); the solver chooses
+        ok = e.ctx.branch(e.ctx.fresh_bool("flush_ok"), "Writer::flush")
         R().flushed = True
-        return Ok(Tuple([]))
+        R().flush_ok = ok
+        return Ok(Tuple([])) if ok else Err(Opaque("io::Error"))
     ov(r"^csv::Writer::<.*>::flush$|^Writer::<.*>::flush$", m_flush)
 
     # --- arrow / parquet --------------------------------------------------------------------------
@@ -302,7 +306,11 @@ def install(eng, rec_box):
     ov(r"^FileWriter::<.*>::write$|^ArrowWriter::<.*>::write$", m_writer_write)
 
     def m_writer_finish(e, callee, args):
+        ok = e.ctx.branch(e.ctx.fresh_bool("finish_ok"), "finish/close")
         R().finished = True
+        R().flush_ok = ok
+        if not ok:
+            return Err(Opaque("write error"))
         return Ok(Opaque("FileMetaData")) if "close" in callee else Ok(Tuple([]))
     ov(r"^FileWriter::<.*>::finish$|^ArrowWriter::<.*>::close$|^ArrowWriter::<.*>::finish$", m_writer_finish)
     ov(r"^WriterProperties::builder$|^WriterPropertiesBuilder::", lambda e, c, a: Opaque("WriterProperties"))
@@ -368,13 +376,13 @@ def c17_layout(out, tier, seed):
                       "fails (solver's choice)" % (shapes,)],
               assumptions=["the csv / arrow-ipc / parquet writers are recorders: write_record, the schema, the record batch "
                            "columns and finish/close are logged in call order; RecordBatch::try_new fails unless column count, "
-                           "lengths and types match the schema (its documented contract); after File::create succeeded the "
-                           "writer calls succeed",
+                           "lengths and types match the schema (its documented contract); after File::create succeeded "
+                           "write_record / write succeed, the final flush / finish / close may fail (solver's choice)",
                            "Display of a number with default options is an injective function of the value (so 'parses back "
                            "to the same number' is decided by the real round trip in the native replay, not by the solver)",
                            "the element type matches the tensor's dtype (TensorData::to_vec succeeds)"],
               out_of_scope=["the bytes written and the third-party readers (only the native replay exercises them)",
-                            "I/O errors after the file was created", "shapes beyond the listed ones (loops are uniform)",
+                            "I/O errors in intermediate writes (only creation and the final flush / finish / close may fail)", "shapes beyond the listed ones (loops are uniform)",
                             "indices >= 2^32 (u32 labels)"])
     fns = [("save_csv", "array", "csv", ("chain", "observation")),
            ("save_csv_tensor", "tensor", "csv", ("chain", "observation")),
@@ -411,12 +419,17 @@ def c17_layout(out, tier, seed):
                 if rec.create_ok is False:
                     u.holds(ctx, "a path that cannot be written yields an error", r.variant == "Err", rp, inst)
                     continue
+                if rec.flush_ok is False:
+                    u.holds(ctx, "a failing final flush / finish / close yields an error, not a reported success", r.variant == "Err", rp, inst)
+                    continue
                 if r.variant != "Ok":
                     # an error is not a success: nothing is claimed about the file, but with a writable path and matching
                     # element type the function must succeed
                     u.holds(ctx, "%s succeeds on a writable path" % fname, False, rp, inst)
                     continue
                 reached[fname] += 1
+                u.holds(ctx, "success is reported only after the writer was flushed / finished explicitly and that call succeeded "
+                        "(csv::Writer's Drop flushes too, but discards the error)", rec.flush_ok is True, rp, inst)
                 u.holds(ctx, "the file is created exactly once, at the given path",
                         len(rec.created) == 1 and isinstance(rec.created[0], StrLit) and rec.created[0].value == "out.file", rp, inst)
                 d0, d1, d2 = shape
@@ -522,10 +535,12 @@ def replay_io(fname, shape):
                 tried.append({"case": case, "native": nat})
                 if bad:
                     return True, {"case": case, "native": nat, "reproduced_in": sorted(bad)}
-        case = {"fn": fname, "shape": [1, 1, 1], "values": "distinct", "unwritable": True}
-        nat = native_io(case)
-        bad = [prof for prof, r in nat.items() if isinstance(r, dict) and (r.get("panic") or r.get("ok") is False)]
-        if bad:
-            return True, {"case": case, "native": nat, "reproduced_in": sorted(bad)}
+        for case in ({"fn": fname, "shape": [1, 1, 1], "values": "distinct", "unwritable": True},
+                     {"fn": fname, "shape": [2, 2, 2], "values": "distinct", "devfull": True},
+                     {"fn": fname, "shape": [2, 0, 3], "values": "distinct", "devfull": True}):
+            nat = native_io(case)
+            bad = [prof for prof, r in nat.items() if isinstance(r, dict) and (r.get("panic") or r.get("ok") is False)]
+            if bad:
+                return True, {"case": case, "native": nat, "reproduced_in": sorted(bad)}
         return False, {"tried": tried[:2]}
     return replay
